@@ -10,7 +10,7 @@
 (* Model.CombinerRun: the glue the generated cases evaluate, built with this file *)
 From V Require Import Model.Combiner Model.CombinerRun Model.Compose Model.Splitter Model.ComposeBridge Model.ComposeCombineRun
   Spec.CombinerSpec Spec.CombinerSetSpec
-  Proofs.CombinerProofs Proofs.CombinerSetProofs Proofs.CombinerOnce Proofs.ComposeCombine.
+  Proofs.CombinerProofs Proofs.CombinerSetProofs Proofs.CombinerOnce Proofs.ComposeCombine Proofs.CombinerRound5.
 From Coq Require Import Permutation.
 Open Scope N_scope.
 
@@ -187,6 +187,36 @@ Proof. exact combine_numbered. Qed.
 (* the hypothesis [seq_octet] holds of every PDU whose UDH values are octets *)
 Theorem C10_seq_octet : forall p, udh_octets (d_udh p) -> seq_octet p.
 Proof. exact seq_octet_of_udh. Qed.
+
+(* [hdr] (used throughout the statements above) IS what ConcatenatedHeader returns: the model of
+   the extraction never panics and never fails, so no statement silently reads a panicking
+   header as "not concatenated" *)
+Theorem C10_hdr_faithful : forall p, concatenated_header (d_udh p) = Ok (hdr p).
+Proof. exact concatenated_header_hdr. Qed.
+
+(* "8- and 16-bit reference forms": both elements yield a uint16 reference number and the key
+   holds that number, not the form.  An 8-bit reference r and the 16-bit reference 0x00rr ARE the
+   same reference number: segments carrying them between the same addresses are filed under one key
+   (intended: C10 separates messages by reference NUMBER; 3GPP TS 23.040 has one sender use one form) *)
+Theorem C10_reference_forms_one_number : forall r t s, r < 256 ->
+  concatenated_header (Some [(0, [r; t; s])]) = concatenated_header (Some [(8, [0; r; t; s])]).
+Proof. exact forms_same_header. Qed.
+Theorem C10_reference_forms_one_key : forall src dst ref total s1 s2, ref < 256 ->
+  seg_key (segf 0 src dst ref total s1) = seg_key (segf 1 src dst ref total s2).
+Proof. exact forms_same_key. Qed.
+Example C10_mixed_forms_delivered_together :
+  run_ids [segf 0 (a_ 1 1 [49]) (a_ 1 1 [50]) 5 2 1; segf 1 (a_ 1 1 [49]) (a_ 1 1 [50]) 5 2 2] = Ok [[]; [[1; 2]]].
+Proof. exact mixed_forms_delivered. Qed.
+
+(* what is handed to the callback has no empty slot, and nothing the registry still holds after any
+   history is such an array (every stored array has an empty slot): the combiner keeps no array it has
+   handed out.  (Value level; that the Go slice is not written to afterwards is the direct test
+   combine/delivered-slice-changed-after-callback.) *)
+Theorem C10_delivered_full : forall r p r1 out cb, cstep r p = Ok (r1, out) -> In cb out -> full cb = true.
+Proof. exact cstep_out_full. Qed.
+Theorem C10_delivered_not_stored : forall h r outs, Forall seq_octet h -> crun [] h = Ok (r, outs) ->
+  forall k l, lookup beq_key k r = Some l -> full l = false.
+Proof. exact delivered_not_stored. Qed.
 
 (* key equality is equality of (source, destination, reference) *)
 Theorem C10_key_injective : forall p c q c',
